@@ -168,7 +168,8 @@ def frameEvents (k : Nat) : List Ev → Res (List Pdu) × List Ev
 
 /-- The loop over `received.into_pdu_iter()` in `is_state`: every status datagram must have been
     answered by exactly one device (`pdu?.wkc(1)?`), then decode, return `Ok(false)` at the first
-    state that differs. AS CODED: the error bit of the status is not looked at. -/
+    state that differs; a status with the error-indication bit ends the call with
+    `Err(StateTransition)`, as in `MainDevice::wait_for_state`. -/
 def checkStates (desired : Nat) : List Pdu → Res Bool
   | [] => .ok true
   | p :: ps =>
@@ -177,7 +178,9 @@ def checkStates (desired : Nat) : List Pdu → Res Bool
     | .ok p =>
       match unpackAlControl p.data with
       | .error e => .error e
-      | .ok c => if c.state ≠ desired then .ok false else checkStates desired ps
+      | .ok c =>
+        if c.error then .error .stateTransition
+        else if c.state ≠ desired then .ok false else checkStates desired ps
 
 /-- The frames of one complete status round: `push_state_checks` applied to a fresh frame again
     and again until it pushes nothing. Which members go into which frame depends on the frame size
